@@ -1377,6 +1377,10 @@ def pandas_table(interp):
     }
 
 
+class PlainTable(dict):
+    pass
+
+
 def _dataframe_ctor(interp):
     def DataFrame(data=None, **kw):
         if isinstance(data, Frame):
@@ -1393,6 +1397,11 @@ def _dataframe_ctor(interp):
             for k, v in data.items():
                 f.cols[k] = V(v.t, (ax0,), f.index, v.nan, v.inf)
             return f
+        if isinstance(data, dict):
+            # a table assembled from free-standing arrays / scalars (not rows of an existing frame): kept as the
+            # column dictionary (pd.DataFrame(dict) builds exactly these columns, scalars broadcast)
+            _use("pd.DataFrame({name: array | scalar}): columns as given, scalars broadcast")
+            return PlainTable(data)
         raise Undecided("pd.DataFrame constructor form")
 
     return DataFrame
